@@ -205,7 +205,7 @@ def solid_case(draw, tier="quick"):
     what = draw(st.sampled_from(["segment", "triangle2", "triangle3", "tetrahedron", "cuboid", "regular2", "regular3", "polyhedron_eq"]))
     return {"what": what, "v": [draw(C.ints(6)) for _ in range(12)], "n": draw(st.integers(3, 9)), "r": draw(st.sampled_from([1, 2, 3, 0.5, 2.5])), "perm": draw(st.permutations(range(6))),
             "lens": [draw(st.integers(1, 4)) for _ in range(3)], "coll": draw(st.booleans()), "s": [draw(C.scale()) for _ in range(4)],
-            "derive": draw(st.sampled_from([None, None, "translation*", "+point", "scaling*"])), "move": [draw(st.integers(-4, 4)) for _ in range(3)],
+            "derive": draw(st.sampled_from([None, None, "translation*", "+point", "scaling*", "k*identity"])), "move": [draw(st.integers(-4, 4)) for _ in range(3)],
             "intd": draw(st.booleans()), "w": [draw(st.sampled_from([1, 1, 2, 4, -2])) for _ in range(4)]}
 
 
